@@ -15,7 +15,7 @@ CHECKS = {
         "real-analytic model (blocks bare and inside a solver, integer-typed arguments included). The interface half (place and wire by "
         "pin name, solve, str, print_S, show_free_pins, inspect for int and float arguments, every documented block) is an exhaustive "
         "enumeration of a finite table — finite checking, labelled so."
-        " Blocks added after seeded changes were missed: BeamSplitter with explicit transmission t (boundary values) and UserWaveguide with two modes of different key sets.",
+        " Blocks added after seeded changes were missed: BeamSplitter with explicit transmission t (boundary values) and UserWaveguide with two modes of different key sets. Coefficients are looked up BY PIN NAME in the documented pin order (not only as a raw matrix); UserWaveguide is sampled with modes declared in unsorted order; BeamSplitter with a transmission argument is covered.",
    note="Trusted: Coq kernel; Coq.Reals axioms (ClassicalDedekindReals.sig_forall_dec, sig_not_dec, functional_extensionality_dep, "
         "Classical_Prop.classic) and what Interval/Flocq/Coquelicot add (listed per theorem and per generated lemma in the evidence); "
         "hand-written model Blocks.v; harness sampling. User index functions enter as their value. Follows the fixed code (F22-F24). The "
@@ -115,7 +115,7 @@ CHECKS = {
         "any schedule, has for the pins it owns the coefficients of the original solver (split_behaves). Closed under the global context. "
         "The tie runs split() of /repo on random graphs incl. cycles, stars whose hub is declared last, multi-links and isolated "
         "structures, compares the partition as a set of sets and each returned solver's matrix with the model's solve of that part."
-        " Further streams: split() after a structure was cut, added again and wired elsewhere; parametric parts whose FIRST solve is argument-less, with defaults changed after add_param.",
+        " Further streams: split() after a structure was cut, added again and wired elsewhere; parametric parts whose FIRST solve is argument-less, with defaults changed after add_param. split() is also taken after remove_structure.",
    note="Trusted: Coq kernel + vm_compute; Bignums primitives for the executed instance; model Split.v tied by sampled correspondence; "
         "harness. Follows the fixed code (F15). The 'defaults are handed over' half is checked in the C05/C06 parameter streams.",
    technique="Coq proof (loop invariant, all graphs and orders) + vm_compute correspondence of partitions and part matrices", design="§5 C12"),
@@ -131,7 +131,7 @@ CHECKS = {
         "overlapping mode lists; sub-solvers exposing Pin(base, mode)) through connect_all and compares with the model's solve of the "
         "multi-mode netlist AND with independent per-mode solves and zero cross-mode coefficients; runs the queries on models, results, "
         "structures and placed sub-solvers."
-        " The expansion stream includes blocks that refill one persistent buffer (CWA, FPR).",
+        " The expansion stream includes blocks that refill one persistent buffer (CWA, FPR). Nested solvers and queries also use mode-major pin layouts (a_TE, b_TE, a_TM, b_TM).",
    note="Trusted: Coq kernel + vm_compute; Bignums primitives for the executed instance; model Modes.v tied by sampled correspondence; "
         "harness. The circuit-level statement is proved for circuits whose blocks all carry the same mode list (every link replicated per "
         "mode); partially overlapping mode lists are covered by the per-mode comparison in Coq (tie), not by a theorem. Follows the fixed code (F17, F18). Expansion of an "
@@ -147,7 +147,7 @@ CHECKS = {
         "mapped pins, renamed, and changes no kept coefficient (mode_select_ok); |z|^2 and arg z determine z (polar_roundtrip, over the "
         "reals). The tie exports hand-made and really solved sweeps with /repo, loads them with the real loader and compares pins and "
         "every coefficient at every exported point and at in-between values with the model."
-        " Two-parameter files are also evaluated with the keywords in the reverse of the file's column order.",
+        " Two-parameter files are also evaluated with the keywords in the reverse of the file's column order. Mode mappings include swaps and chains of mode names (new names overlapping old ones).",
    note="Trusted: Coq kernel + vm_compute; Bignums primitives; Coq.Reals axioms for polar_roundtrip only; model InPulse.v/Interp.v tied by "
         "sampled correspondence; YAML/CSV, decimal printing and parsing, numpy and scipy interpolators are modelled (enc/dec parameters, "
         "interp1) not verified — their joint effect is what the tie observes. Two-parameter files: grid points only. Follows the fixed "
@@ -175,7 +175,7 @@ CHECKS = {
         "the global context. The tie executes random such programs on /repo with every module-level helper (put, putpin, Pin.put, "
         "connect, connect_all, raise_pins, add_param, set/update_default_params, add_structure_to_monitors, solve) and compares the kind "
         "of exit, lekkersim.sol_list afterwards and, for each helper call, which solver actually changed."
-        " All solvers of a program share one parameter name, so a helper that touches an enclosing solver's entry is seen.",
+        " All solvers of a program share one parameter name, so a helper that touches an enclosing solver's entry is seen. Programs also call Structure.raise_pins on placed models and placed sub-solvers; all solvers of a program own one common parameter name so that a helper reaching a wrong solver is visible.",
    note="Trusted: Coq kernel + vm_compute; CPython's with/try semantics as modelled; model Stack.v tied by sampled correspondence; harness "
         "(the changed solver is detected by fingerprinting all solvers before/after each helper).",
    technique="Coq proof by induction over programs + vm_compute correspondence of executed with-block programs", design="§5 C17"),
@@ -202,7 +202,7 @@ CHECKS = {
         "same printable name make the name table refuse (for all pin lists); an accepted table resolves every name to exactly its pin; renamed "
         "pins are addressable by the new names. The tie replays histories with 30 % invalid calls by Pin object and by name on /repo, "
         "comparing ok/error and the observable state after every call and the final solve, and random pin-name tables with renamings "
-        "(swaps, chains, collisions) through Model.pin / Structure.pin.",
+        "(swaps, chains, collisions) through Model.pin / Structure.pin. Renamings include ascending renumberings and swaps, after which every renamed pin must still address its own port; solver parameter defaults are part of the atomicity observation (a rejected add must not reset them).",
    note="Trusted: Coq kernel + vm_compute; models Wiring.v/Names.v tied by sampled correspondence; harness. Follows the fixed code (F01, F10, F11, F26).",
    technique="Coq proof (invariant + atomicity for all histories; name tables for all pin lists) + vm_compute correspondence of histories with invalid calls", design="§5 C16, §8"),
  "C20": dict(
@@ -258,7 +258,7 @@ CHECKS = {
         "the global context. The same definitions run under vm_compute against Solver.solve of /repo on random reflective, "
         "non-reciprocal, lossy, multi-link, partially exposed circuits built through the public API in both styles, with scrambled pin "
         "index maps; Coq compares every coefficient between exposed pins within 1e-9."
-        " The streams also map an external name twice (the last mapping counts) and link one pair of structures by 2-4 links in permuted pin order.",
+        " The streams also map an external name twice (the last mapping counts) and link one pair of structures by 2-4 links in permuted pin order. Components are Models or bare Structures carrying their own matrix.",
    note="Trusted: Coq kernel + vm_compute; Bignums/Uint63 primitives for the executed instance only; hand-written model tied by sampled "
         "correspondence; harness. Theorems conditional on the model returning Ok (all inner systems met by the schedule invertible). "
         "The model follows the fixed code (F01: self-connections are rejected).",
@@ -270,7 +270,7 @@ CHECKS = {
         "dimensions, is slice-wise when batched, and that int_complete returns amplitudes satisfying both components' equations. "
         "All closed under the global context. The same Gallina definitions, instantiated with Gaussian rationals (bigQ), are run "
         "by vm_compute against S_matrix.add/int_complete of /repo on generated reflective blocks (incl. zero dimensions, batches, "
-        "broadcast, mismatches); Coq decides agreement within 1e-9 in exact arithmetic.",
+        "broadcast, mismatches); Coq decides agreement within 1e-9 in exact arithmetic. Half of the unbatched cases fill the S_matrix blocks in place after construction (complex dtype of the allocated blocks).",
    note="Trusted: Coq kernel + vm_compute; Bignums/Uint63 primitives (only for the executed instance BQCf, not for the theorems); "
         "hand-written model tied by sampled correspondence; harness (generators, float->dyadic transport, emitter, parser). "
         "Theorems are conditional on the model returning Ok (inner systems invertible). numpy is exercised, not verified.",
